@@ -77,7 +77,7 @@ func config(tier string) *opspace.Config {
 		Drivers:  []string{"memory", "secrets"},
 		Inits:    []string{"empty"},
 		MakeInit: func(drv, _ string) *hx.World { return hx.NewWorld(drv) },
-		Alphabet: func(_ *hx.World, _ []*rspb.Release, _ int) []opspace.Step {
+		Alphabet: func(_ *hx.World, _ []*rspb.Release, _ []opspace.Step) []opspace.Step {
 			var out []opspace.Step
 			for _, o := range ops {
 				out = append(out, opspace.Step{Op: o})
